@@ -7,5 +7,6 @@ mkdir -p work evidence
 [ -f harness/Cargo.lock ] || cp /repo/Cargo.lock harness/Cargo.lock
 (cd harness && cargo build --offline --quiet)
 # TLA+ tools present?
-java -cp /opt/veriftools/tla/tla2tools.jar tlc2.TLC -h >/dev/null 2>&1 || { echo "TLC missing"; exit 1; }
+[ -f /opt/veriftools/tla/tla2tools.jar ] || { echo "TLC jar missing"; exit 1; }
+java -version >/dev/null 2>&1 || { echo "java missing"; exit 1; }
 echo "setup ok"
